@@ -72,7 +72,7 @@ func runC02(e *core.Env) {
 		behaviour = []string{"ok", "stored-flip", "stored-truncate", "stored-substitute", "index-entry-size-wrong"}[e.Choose("disk", 5, "stored")]
 	}
 	// how the expected digest is supplied
-	how := []string{"tag", "digest-ref", "tag+descriptor", "digest-ref+descriptor", "tag+wrong-descriptor", "wrong-digest-ref"}[e.Choose("gen", 6, "how")]
+	how := []string{"tag", "digest-ref", "tag+descriptor", "digest-ref+descriptor", "tag+wrong-descriptor", "wrong-digest-ref", "digest-ref+other-descriptor"}[e.Choose("gen", 7, "how")]
 	ep := &endpoint{}
 	var up *regmodel.Reg
 	served := n.Raw
@@ -149,11 +149,14 @@ func runC02(e *core.Env) {
 			case "no-digest-header":
 				r.Header.Del("Docker-Content-Digest")
 			case "contradicting-content-type":
-				if n.Kind == "index" {
-					r.Header.Set("Content-Type", gen.MTOCIManifest)
-				} else {
-					r.Header.Set("Content-Type", gen.MTOCIIndex)
+				// any manifest type other than the one the body declares
+				var others []string
+				for _, t := range []string{gen.MTOCIManifest, gen.MTOCIIndex, gen.MTDockerMan, gen.MTDockerList} {
+					if t != n.MediaType {
+						others = append(others, t)
+					}
 				}
+				r.Header.Set("Content-Type", others[e.Choose("net", len(others), "othertype")])
 			case "append-whitespace":
 				body = append(body, '\n', ' ')
 			case "reencode-json":
@@ -189,6 +192,12 @@ func runC02(e *core.Env) {
 	case "tag+wrong-descriptor":
 		opts = append(opts, regclient.WithManifestDesc(descriptor.Descriptor{MediaType: n.MediaType, Digest: digest.Digest(wrong), Size: int64(len(n.Raw))}))
 		expected = append(expected, wrong)
+	case "digest-ref+other-descriptor":
+		// the reference is pinned to the stored manifest, the descriptor names another digest: what comes back
+		// must hash to the descriptor's digest (or nothing comes back)
+		refStr = base + "@" + n.Digest
+		opts = append(opts, regclient.WithManifestDesc(descriptor.Descriptor{MediaType: n.MediaType, Digest: digest.Digest(wrong), Size: int64(len(n.Raw))}))
+		expected = append(expected, wrong)
 	case "wrong-digest-ref":
 		// the registry is asked for the right manifest, the caller believes in another digest:
 		// only reachable by tag, so the tag carries the content and the digest rides in the ref
@@ -209,7 +218,7 @@ func runC02(e *core.Env) {
 	simrt.Event("ManifestGet returned %v", err)
 	if err != nil {
 		e.Probe("fetch-rejected")
-		if behaviour == "ok" && !strings.Contains(how, "wrong") {
+		if behaviour == "ok" && !strings.Contains(how, "wrong") && !strings.Contains(how, "other") {
 			e.Violation("vacuity", "clean-fetch-failed", "fetch of an uncorrupted manifest (%s) failed: %v", how, err)
 		}
 		return
